@@ -11,6 +11,7 @@ RULE = ("random patterns generated from the documented subset (literals, escaped
         "\\d \\s \\w) x all strings of length <=3 over a 7-character printable alphabet plus random longer ones; "
         "PythonRegex(p).accepts(s) is compared with re.fullmatch(p, s); patterns rejected by re.compile must be "
         "rejected. Non-trivial: pattern with >=2 operators.")
+EXPLANATION = "PythonRegex is a chain of textual rewrites whose specification is CPython's own re engine, which cannot be stated in Lean; every generated (pattern, string) instance is decided exactly by re.fullmatch / re.compile as the property itself prescribes. No Lean theorem is claimed for this property in this round (see DESIGN.md 6 C07)."
 THEOREMS = []
 ALPHA = ["a", "b", "c", "1", " ", "-", "+"]
 LITS = ["a", "b", "c", "1", "-", "\\+", "\\*", "\\.", "\\(", "\\)", "\\?", "\\|", "\\[", "\\]", " "]
